@@ -251,6 +251,9 @@ def oracle(disp, plan, ops, line):
                 return 'C09', 'status changed between %s and %s: %s -> %s' % (ops[first[0]], ops[i], first[1], f)
         elif first is not None:
             return 'C09', 'terminated went back to false after %s' % ops[i]
+    # pexpect itself has reaped the child (nobody else waits for it in these histories): it has observed the death, so it knows the fate
+    if 'proc=reaped' in tail and fields and fields[-1]['t'] != 'true':
+        return '*', 'after %s the child has been reaped (by pexpect: nobody else waits for it), yet the object does not know its fate: %s' % (ops[-1], steps[-1][1])
     for i, (op, r) in enumerate(zip(ops, rets)):
         if op == 'wait' and fields[i]['t'] != 'true':
             return 'C09', 'wait() returned %s but the object does not know the child\'s fate afterwards (%s)' % (r, steps[i][1])
